@@ -99,15 +99,19 @@ const (
 )
 
 type Policy struct {
-	Mode       string   `json:"mode"` // "random" | "pct" | "serial" | "forced"
-	SwitchProb float64  `json:"switch_prob,omitempty"`
-	PCTDepth   int      `json:"pct_depth,omitempty"`
-	EstYields  int      `json:"est_yields,omitempty"`
-	StallProb  float64  `json:"stall_prob,omitempty"` // per-yield probability to stall inside StallSites
-	StallAny   float64  `json:"stall_any,omitempty"`  // per-yield probability to stall anywhere
-	MaxYields  int      `json:"max_yields,omitempty"`
-	MaxStalls  int      `json:"max_stalls,omitempty"` // stall faults per run (default 2)
-	Forced     []Switch `json:"forced,omitempty"`
+	Mode       string  `json:"mode"` // "random" | "pct" | "serial" | "forced"
+	SwitchProb float64 `json:"switch_prob,omitempty"`
+	PCTDepth   int     `json:"pct_depth,omitempty"`
+	// PCTPoints, if set, are the yield numbers of the priority change points (instead of PCTDepth
+	// random ones), and tasks start with priorities in task order (task 0 highest): a preemption
+	// point placed on purpose, e.g. swept across processes.
+	PCTPoints []int    `json:"pct_points,omitempty"`
+	EstYields int      `json:"est_yields,omitempty"`
+	StallProb float64  `json:"stall_prob,omitempty"` // per-yield probability to stall inside StallSites
+	StallAny  float64  `json:"stall_any,omitempty"`  // per-yield probability to stall anywhere
+	MaxYields int      `json:"max_yields,omitempty"`
+	MaxStalls int      `json:"max_stalls,omitempty"` // stall faults per run (default 2)
+	Forced    []Switch `json:"forced,omitempty"`
 	// SerialOrder: for mode "serial": task ids in the order they run to completion.
 	SerialOrder []int `json:"serial_order,omitempty"`
 }
@@ -319,6 +323,15 @@ func (s *Sim) Run(watchdog time.Duration) {
 		}
 		for i := 0; i < s.pol.PCTDepth; i++ {
 			s.pctPoints[s.rng.Intn(est)] = true
+		}
+		if len(s.pol.PCTPoints) > 0 {
+			s.pctPoints = map[int]bool{}
+			for _, k := range s.pol.PCTPoints {
+				s.pctPoints[k] = true
+			}
+			for i, t := range s.tasks {
+				t.prio = len(s.tasks) - i + len(s.pol.PCTPoints) + 1
+			}
 		}
 	}
 	for _, t := range s.tasks {
